@@ -197,15 +197,17 @@ theorem NoDupKeys_of_keys_eq {α β γ : Type} [DecidableEq α] : ∀ (a : List 
       rw [← hxy]
       exact hb.1 y hy
 
-theorem prefixExists_reset (tag : EName) (M : NsMap) (u : Str) (hp : prefixExists u M = true)
-    (hd : ∀ v, dget M none = some v → v ≠ u) (hn : NoDupKeys M) : prefixExists u (resetDefaultNamespace tag M) = true := by
-  obtain ⟨k, hk⟩ := prefixExists_true u M hp
-  have hget := NoDupKeys_dget_of_mem M k u hn hk
+theorem prefixedExists_reset (tag : EName) (M : NsMap) (u : Str) (hp : prefixedExists u M = true)
+    (hn : NoDupKeys M) : prefixedExists u (resetDefaultNamespace tag M) = true := by
+  simp only [prefixedExists, List.any_eq_true, Bool.and_eq_true, decide_eq_true_eq] at hp ⊢
+  obtain ⟨e, he, hk, heq⟩ := hp
+  obtain ⟨k, v⟩ := e
   cases k with
-  | none => exact absurd rfl (hd u hget)
+  | none => simp at hk
   | some s =>
-    have : dget (resetDefaultNamespace tag M) (some s) = some u := by rw [reset_dget_some]; exact hget
-    exact prefixExists_of_mem u _ (some s, u) (dget_some_mem _ _ _ this) rfl
+    have hget := NoDupKeys_dget_of_mem M (some s) v hn he
+    have : dget (resetDefaultNamespace tag M) (some s) = some v := by rw [reset_dget_some]; exact hget
+    exact ⟨(some s, v), dget_some_mem _ _ _ this, hk, heq⟩
 
 theorem reset_qualified (tag : EName) (M : NsMap) (u : Str) (h : tag.1 = some u) (hu : u ≠ []) :
     resetDefaultNamespace tag M = M := by
@@ -253,7 +255,7 @@ theorem open_elem (env : NsEnv) (henv : EnvOK env) (d : Option Str) (isNil : Boo
     (tag : EName) (A : Attrs) (gctxs : List (List (Str × Pfx))) (gcur : List (Str × Pfx)) (gpend : Option Str)
     (st : List Frame) (root : Option Node) (sst : List SFrame) (sroot : Option Node)
     (hM : MapOK env d (base ++ Y)) (hK : K2 base gcur) (hS : ScopeEq (parentScope st) base)
-    (hA : AttrsOK d A) (htag : TagOK tag (base ++ Y))
+    (hA : AttrsOK d A) (htag : TagOK tag (base ++ Y)) (hYok : YOK base Y)
     (hroot : st = [] → root = none) (hsroot : sst = [] → sroot = none) :
     ∃ w ws vs scope' decls,
       decls = newPrefixes base (flushed env isNil base tag A (base ++ Y)).map
@@ -279,12 +281,12 @@ theorem open_elem (env : NsEnv) (henv : EnvOK env) (d : Option Str) (isNil : Boo
     simp only [attrNameOK, Bool.and_eq_true] at this
     cases h1 : e.1.1 with
     | none => rfl
-    | some u => rw [h1] at this; simp only [Bool.and_eq_true] at this; exact this.2.1
+    | some u => rw [h1] at this; exact this.2
   obtain ⟨eA, okA, pA⟩ := addAttrNamespaces_ok env henv d A' (base ++ Y) hM hnsA
   obtain ⟨X, hX, hXk⟩ := eA
   have hMa : addAttrNamespaces env A' (base ++ Y) = base ++ (Y ++ X) := by rw [hX]; simp
   rw [hMa] at okA pA
-  obtain ⟨okF, hdecl, hnodup, hscope, hK2⟩ := flush_inv env d base (Y ++ X) tag (parentScope st) gcur okA hS hK
+  obtain ⟨okF, hdecl, hnodup, hscope, hK2⟩ := flush_inv env d base (Y ++ X) tag (parentScope st) gcur okA hS hK (YOK_append base Y X hYok hXk)
   have hfl : flushed env isNil base tag A (base ++ Y)
       = ⟨(newPrefixes base (resetDefaultNamespace tag (base ++ (Y ++ X)))).map (fun d => Call.startPrefix d.1 d.2)
           ++ [Call.startElem tag A'], resetDefaultNamespace tag (base ++ (Y ++ X)),
@@ -324,19 +326,10 @@ theorem open_elem (env : NsEnv) (henv : EnvOK env) (d : Option Str) (isNil : Boo
       rw [this]; exact hw
   obtain ⟨w, hwq, hwres⟩ := hname
   -- the attributes
-  have hpA' : ∀ e ∈ A', ∀ u, e.1.1 = some u → prefixExists u Mf = true := by
+  have hpA' : ∀ e ∈ A', ∀ u, e.1.1 = some u → prefixedExists u Mf = true := by
     intro e he u heu
-    have h1 := pA e he u heu
-    have hnm := hA'.names e he
-    simp only [attrNameOK, Bool.and_eq_true, heu, bne_iff_ne, ne_eq] at hnm
-    obtain ⟨_, huok, hud⟩ := hnm
     rw [← hMf]
-    refine prefixExists_reset tag _ u h1 ?_ okA.nodup
-    intro v hv hvu
-    subst hvu
-    rcases okA.dflt v hv with h | h
-    · exact uriOK_ne_nil v huok h
-    · exact hud h
+    exact prefixedExists_reset tag _ u (pA e he u heu) okA.nodup
   obtain ⟨ws, vs, hga, hsv, hra⟩ := resolve_attrs env henv d Mf (applyDecls (parentScope st) decls)
     ⟨pushCtxs gcur gctxs decls, applyCur gcur decls, decls, gpend⟩ okF hscope hK2 A' hA'.names hA'.vals hpA'
   have hvsnd : nodupKeys vs = true :=
@@ -427,21 +420,11 @@ end Proofs.Generator
 namespace Proofs.Generator
 open Py Xs.Ns Xs.Sax Xs.Writer Spec.XmlNs Spec.EventTree Proofs.MapInv Proofs.Flush Proofs.Resolve Proofs.TreeWriter Spec.Hyps Proofs.Attrs
 
-theorem getLast?_mem_of_some (x : Str) (c : Char) (h : x.getLast? = some c) : c ∈ x := by
-  exact List.mem_of_getLast? h
-
 theorem pStep_text (f : Frame) (st : List Frame) (root : Option Node) (x : Str)
-    (hx : xmlChars x = true) (hcr : noCR x) (hne : x.isEmpty = false) :
+    (hx : xmlChars x = true) (hne : x.isEmpty = false) :
     pStep ⟨f :: st, root, false⟩ (Tok.text x)
       = some ⟨{ f with kidsRev := addText x f.kidsRev } :: st, root, false⟩ := by
-  have hl : (x.getLast? == some '\r') = false := by
-    cases h : x.getLast? with
-    | none => rfl
-    | some c =>
-      have hc : c ≠ '\r' := fun e => hcr (e ▸ getLast?_mem_of_some x c h)
-      simp [hc]
-  have hn : normEol x = x := normEol_noCR x hcr
-  simp [pStep, hx, addChunk, eolChunk, hn, hne, hl]
+  simp [pStep, hx, hne]
 
 /-- L2 for the content of a flushed element -/
 def L2c (env : NsEnv) (d : Option Str) (c : Content) : Prop :=
@@ -460,7 +443,7 @@ def L2b (env : NsEnv) (d : Option Str) (c : Content) : Prop :=
   (∀ base tag A M2 cs, calls env (.body base tag A M2) c = some cs → contentOK env d c = true →
     ∀ (gctxs : List (List (Str × Pfx))) (gcur : List (Str × Pfx)) (gpend : Option Str)
       (st : List Frame) (root : Option Node) (sst : List SFrame) (sroot : Option Node) (Y : NsMap),
-     M2 = base ++ Y → MapOK env d M2 → K2 base gcur → ScopeEq (parentScope st) base → AttrsOK d A → TagOK tag M2 →
+     M2 = base ++ Y → YOK base Y → MapOK env d M2 → K2 base gcur → ScopeEq (parentScope st) base → AttrsOK d A → TagOK tag M2 →
      (st = [] → root = none) → (sst = [] → sroot = none) →
      ∃ toks node,
        gRun env.saxXmlNs ⟨gctxs, gcur, [], gpend⟩ cs = .ok (toks, ⟨gctxs, gcur, [], none⟩) ∧ toks ≠ [] ∧
@@ -485,12 +468,12 @@ theorem sRun_ok_append (a b : List Call) (s s1 s2 : List SFrame × Option Node)
 
 /-- the element of which START, ATTRs and the flush have been decided: `nil` content -/
 theorem l2_body_nil (env : NsEnv) (henv : EnvOK env) (d : Option Str) : L2b env d .nil := by
-  intro base tag A M2 cs h _ gctxs gcur gpend st root sst sroot Y hY hM hK hS hA htag hroot hsroot
+  intro base tag A M2 cs h _ gctxs gcur gpend st root sst sroot Y hY hYok hM hK hS hA htag hroot hsroot
   subst hY
   simp only [calls, Option.some.injEq] at h
   subst h
   obtain ⟨w, ws, vs, scope', decls, _, hpre, hg, hp, hs, _, _, _, hq⟩ :=
-    open_elem env henv d true base Y tag A gctxs gcur gpend st root sst sroot hM hK hS hA htag hroot hsroot
+    open_elem env henv d true base Y tag A gctxs gcur gpend st root sst sroot hM hK hS hA htag hYok hroot hsroot
   obtain ⟨cg, cp, cs'⟩ := close_elem env.saxXmlNs tag w decls gctxs gcur (some w) (Or.inl rfl) hq vs [] scope' st root false sst sroot
   refine ⟨[Tok.open_ w decls ws] ++ [Tok.close w], .elem tag vs [], ?_, by simp, ?_, ?_⟩
   · refine gRun_ok_append _ _ _ _ _ _ _ _ hg ?_
@@ -548,30 +531,25 @@ theorem l2_content_data (env : NsEnv) (henv : EnvOK env) (d : Option Str) (v : V
         · simp only [hx, if_true] at h
           exact skip cs h
         · have hxe : x.isEmpty = false := by simpa using hx
-          simp only [hxe, Bool.false_eq_true, if_false] at h
-          cases it with
-          | true => simp at h
-          | false =>
-            simp only [Bool.false_eq_true, if_false, Option.map_eq_some_iff] at h
-            obtain ⟨r, hr, rfl⟩ := h
-            have hxx := hxml x rfl
-            have hcr := encodeData_noCR env henv d v M' hM hv x M' he
-            obtain ⟨toks, pend', K, hg, _, h2, hp, hs⟩ :=
-              ih M' true r hr hokk gctxs gcur none { f with kidsRev := addText x f.kidsRev } st root
-                { sf with kidsRev := addText x sf.kidsRev } sst sroot hM hK hS (by simp [hk])
-            have hpend : pend' = none := by
-              by_cases ht : toks = []
-              · subst ht; simp_all
-              · exact h2 ht
-            subst hpend
-            refine ⟨Tok.text x :: toks, none, K, ?_, by simp, fun _ => rfl, ?_, ?_⟩
-            · simp only [gRun, gStep, hxe, Bool.false_eq_true, if_false]
-              rw [hg]
-              rfl
-            · rw [pRun_cons_ok _ _ _ _ (pStep_text f st root x hxx hcr hxe)]
-              exact hp
-            · simp only [sRun, sStep]
-              exact hs
+          simp only [hxe, Bool.false_eq_true, if_false, Option.map_eq_some_iff] at h
+          obtain ⟨r, hr, rfl⟩ := h
+          have hxx := hxml x rfl
+          obtain ⟨toks, pend', K, hg, _, h2, hp, hs⟩ :=
+            ih M' true r hr hokk gctxs gcur none { f with kidsRev := addText x f.kidsRev } st root
+              { sf with kidsRev := addText x sf.kidsRev } sst sroot hM hK hS (by simp [hk])
+          have hpend : pend' = none := by
+            by_cases ht : toks = []
+            · subst ht; simp_all
+            · exact h2 ht
+          subst hpend
+          refine ⟨Tok.text x :: toks, none, K, ?_, by simp, fun _ => rfl, ?_, ?_⟩
+          · simp only [gRun, gStep, hxe, Bool.false_eq_true, if_false]
+            rw [hg]
+            rfl
+          · rw [pRun_cons_ok _ _ _ _ (pStep_text f st root x hxx hxe)]
+            exact hp
+          · simp only [sRun, sStep]
+            exact hs
 
 end Proofs.Generator
 
@@ -583,11 +561,11 @@ theorem elem_wrap (env : NsEnv) (henv : EnvOK env) (d : Option Str) (isNil : Boo
     (tag : EName) (A : Attrs) (gctxs : List (List (Str × Pfx))) (gcur : List (Str × Pfx)) (gpend : Option Str)
     (st : List Frame) (root : Option Node) (sst : List SFrame) (sroot : Option Node)
     (hM : MapOK env d (base ++ Y)) (hK : K2 base gcur) (hS : ScopeEq (parentScope st) base)
-    (hA : AttrsOK d A) (htag : TagOK tag (base ++ Y))
+    (hA : AttrsOK d A) (htag : TagOK tag (base ++ Y)) (hYok : YOK base Y)
     (hroot : st = [] → root = none) (hsroot : sst = [] → sroot = none)
     (pre : List Call) (inner : List Call)
     -- `pre` is what is written between the start tag and the content proper (at most one text chunk)
-    (hpre : pre = [] ∨ ∃ x, pre = [Call.chars x] ∧ xmlChars x = true ∧ noCR x ∧ x.isEmpty = false)
+    (hpre : pre = [] ∨ ∃ x, pre = [Call.chars x] ∧ xmlChars x = true ∧ x.isEmpty = false)
     (hinner : ∀ (gctxs' : List (List (Str × Pfx))) (gcur' : List (Str × Pfx)) (gpend' : Option Str)
         (f : Frame) (sf : SFrame),
         MapOK env d (flushed env isNil base tag A (base ++ Y)).map →
@@ -606,7 +584,7 @@ theorem elem_wrap (env : NsEnv) (henv : EnvOK env) (d : Option Str) (isNil : Boo
       sRun (sst, sroot) ((flushed env isNil base tag A (base ++ Y)).calls ++ (pre ++ (inner ++ closing tag (flushed env isNil base tag A (base ++ Y)))))
         = some (attachS node sst sroot) := by
   obtain ⟨w, ws, vs, scope', decls, _, hpfx, hg, hp, hs, okF, hK2, hsc, hq⟩ :=
-    open_elem env henv d isNil base Y tag A gctxs gcur gpend st root sst sroot hM hK hS hA htag hroot hsroot
+    open_elem env henv d isNil base Y tag A gctxs gcur gpend st root sst sroot hM hK hS hA htag hYok hroot hsroot
   -- after the optional text chunk
   have hmid : ∃ (tpre : List Tok) (pend1 : Option Str) (K1 : List Node),
       (pend1 = some w ∨ pend1 = none) ∧
@@ -614,13 +592,13 @@ theorem elem_wrap (env : NsEnv) (henv : EnvOK env) (d : Option Str) (isNil : Boo
         = .ok (tpre, ⟨pushCtxs gcur gctxs decls, applyCur gcur decls, [], pend1⟩) ∧
       pRun ⟨⟨w, tag, vs, [], scope'⟩ :: st, root, false⟩ tpre = some ⟨⟨w, tag, vs, K1, scope'⟩ :: st, root, false⟩ ∧
       sRun (⟨tag, vs, []⟩ :: sst, sroot) pre = some (⟨tag, vs, K1⟩ :: sst, sroot) := by
-    rcases hpre with h | ⟨x, h, hx, hcr, hne⟩
+    rcases hpre with h | ⟨x, h, hx, hne⟩
     · subst h
       exact ⟨[], some w, [], Or.inl rfl, rfl, rfl, rfl⟩
     · subst h
       refine ⟨[Tok.text x], none, addText x [], Or.inr rfl, ?_, ?_, ?_⟩
       · simp [gRun, gStep, hne]
-      · have := pStep_text ⟨w, tag, vs, [], scope'⟩ st root x hx hcr hne
+      · have := pStep_text ⟨w, tag, vs, [], scope'⟩ st root x hx hne
         simp [pRun, this]
       · simp [sRun, sStep]
   obtain ⟨tpre, pend1, K1, hp1, hg1, hpp1, hs1⟩ := hmid
@@ -655,13 +633,14 @@ end Proofs.Generator
 namespace Proofs.Generator
 open Py Xs.Ns Xs.Sax Xs.Writer Spec.XmlNs Spec.EventTree Proofs.MapInv Proofs.Flush Proofs.Resolve Proofs.TreeWriter Spec.Hyps Proofs.Attrs
 
-theorem ext_base (base Y M3 : NsMap) (h : Ext (base ++ Y) M3) : ∃ Y', M3 = base ++ Y' := by
-  obtain ⟨X, hX, _⟩ := h
-  exact ⟨Y ++ X, by rw [hX]; simp⟩
+theorem ext_base (base Y M3 : NsMap) (h : Ext (base ++ Y) M3) (hY : YOK base Y) :
+    ∃ Y', M3 = base ++ Y' ∧ YOK base Y' := by
+  obtain ⟨X, hX, hXk⟩ := h
+  exact ⟨Y ++ X, by rw [hX]; simp, YOK_append base Y X hY hXk⟩
 
 theorem l2_body_data (env : NsEnv) (henv : EnvOK env) (d : Option Str) (v : Val) (k : Content)
     (ih : L2c env d k) : L2b env d (.data v k) := by
-  intro base tag A M2 cs h hok gctxs gcur gpend st root sst sroot Y hY hM hK hS hA htag hroot hsroot
+  intro base tag A M2 cs h hok gctxs gcur gpend st root sst sroot Y hY hYok hM hK hS hA htag hroot hsroot
   subst hY
   simp only [contentOK, Bool.and_eq_true] at hok
   obtain ⟨hv, hokk⟩ := hok
@@ -676,19 +655,18 @@ theorem l2_body_data (env : NsEnv) (henv : EnvOK env) (d : Option Str) (v : Val)
     simp only [Except.ok.injEq, Prod.mk.injEq] at he2
     obtain ⟨hv2, hm2⟩ := he2
     subst hv2; subst hm2
-    obtain ⟨Y', hY'⟩ := ext_base base Y M3 hext
+    obtain ⟨Y', hY', hYok'⟩ := ext_base base Y M3 hext hYok
     subst hY'
-    have hpre : charsCalls val = [] ∨ ∃ x, charsCalls val = [Call.chars x] ∧ xmlChars x = true ∧ noCR x ∧ x.isEmpty = false := by
+    have hpre : charsCalls val = [] ∨ ∃ x, charsCalls val = [Call.chars x] ∧ xmlChars x = true ∧ x.isEmpty = false := by
       cases val with
       | none => exact Or.inl rfl
       | some x =>
         by_cases hx : x.isEmpty = true
         · exact Or.inl (by simp [charsCalls, hx])
         · have hxe : x.isEmpty = false := by simpa using hx
-          exact Or.inr ⟨x, by simp [charsCalls, hxe], hxml x rfl,
-            encodeData_noCR env henv d v (base ++ Y) hM hv x _ he, hxe⟩
+          exact Or.inr ⟨x, by simp [charsCalls, hxe], hxml x rfl, hxe⟩
     exact elem_wrap env henv d val.isNone base Y' tag A gctxs gcur gpend st root sst sroot hM3 hK hS hA
-      (htag.ext hext) hroot hsroot (charsCalls val) r hpre
+      (htag.ext hext) hYok' hroot hsroot (charsCalls val) r hpre
       (fun gctxs' gcur' gpend' f sf hMf hKf hSf hkf =>
         ih _ true r hr hokk gctxs' gcur' gpend' f st root sf sst sroot hMf hKf hSf hkf)
 
@@ -698,7 +676,7 @@ theorem child_start (env : NsEnv) (henv : EnvOK env) (d : Option Str) (M : NsMap
     (hM : MapOK env d M) (hq : splitQName q = .ok tag)
     (ha : attrsRun env attrs (addNamespace env tag.1 M) [] = some (M2, A))
     (hname : elemNameOK q = true) (hattrs : attrs.all (attrOK env d) = true) :
-    (∃ Y, M2 = M ++ Y) ∧ MapOK env d M2 ∧ AttrsOK d A ∧ TagOK tag M2 := by
+    (∃ Y, M2 = M ++ Y ∧ ∀ e ∈ Y, e.1 ≠ none) ∧ MapOK env d M2 ∧ AttrsOK d A ∧ TagOK tag M2 := by
   unfold elemNameOK at hname
   cases hc : clark q with
   | none => rw [hc] at hname; cases hname
@@ -717,8 +695,8 @@ theorem child_start (env : NsEnv) (henv : EnvOK env) (d : Option Str) (M : NsMap
     obtain ⟨M2', A', h2, e2, ok2, a2⟩ := attrsRun_ok env henv d attrs _ [] ok1 (AttrsOK.nil d) hattrs
     rw [ha] at h2
     cases h2
-    obtain ⟨X, hX, _⟩ := e1.trans e2
-    exact ⟨⟨X, hX⟩, ok2, a2, ⟨hloc, hname, fun u hu => prefixExists_ext u _ _ e2 (p1 u hu)⟩⟩
+    obtain ⟨X, hX, hXk⟩ := e1.trans e2
+    exact ⟨⟨X, hX, hXk⟩, ok2, a2, ⟨hloc, hname, fun u hu => prefixExists_ext u _ _ e2 (p1 u hu)⟩⟩
 
 theorem l2_content_child (env : NsEnv) (henv : EnvOK env) (d : Option Str) (q0 : Str) (attrs : List (Str × Val))
     (kids rest0 : Content) (ihk : L2b env d kids) (ihr : L2c env d rest0) :
@@ -736,9 +714,9 @@ theorem l2_content_child (env : NsEnv) (henv : EnvOK env) (d : Option Str) (q0 :
       split at h
       · rename_i b r hb hr
         cases h
-        obtain ⟨⟨Y, hY⟩, hM2, hA, htag⟩ := child_start env henv d M q0 attrs tag M2 A hM hq ha hname hattrs
+        obtain ⟨⟨Y, hY, hYk⟩, hM2, hA, htag⟩ := child_start env henv d M q0 attrs tag M2 A hM hq ha hname hattrs
         obtain ⟨toks1, node, hg1, hne1, hp1, hs1⟩ :=
-          ihk M tag A M2 b hb hokk gctxs gcur gpend (f :: st) root (sf :: sst) sroot Y hY hM2 hK hS hA htag
+          ihk M tag A M2 b hb hokk gctxs gcur gpend (f :: st) root (sf :: sst) sroot Y hY (YOK_of_prefixed M Y hYk) hM2 hK hS hA htag
             (by simp) (by simp)
         obtain ⟨toks2, pend2, K, hg2, h2a, h2b, hp2, hs2⟩ :=
           ihr M false r hr hokr gctxs gcur none { f with kidsRev := node :: f.kidsRev } st root
@@ -763,7 +741,7 @@ theorem l2_content_child (env : NsEnv) (henv : EnvOK env) (d : Option Str) (q0 :
 theorem l2_body_child (env : NsEnv) (henv : EnvOK env) (d : Option Str) (q0 : Str) (attrs : List (Str × Val))
     (kids rest0 : Content) (hcontent : L2c env d (.child q0 attrs kids rest0)) :
     L2b env d (.child q0 attrs kids rest0) := by
-  intro base tag A M2 cs h hok gctxs gcur gpend st root sst sroot Y hY hM hK hS hA htag hroot hsroot
+  intro base tag A M2 cs h hok gctxs gcur gpend st root sst sroot Y hY hYok hM hK hS hA htag hroot hsroot
   subst hY
   have hc : ∃ inner, calls env (.content (flushed env false base tag A (base ++ Y)).map false) (.child q0 attrs kids rest0) = some inner
       ∧ cs = (flushed env false base tag A (base ++ Y)).calls ++ (inner ++ closing tag (flushed env false base tag A (base ++ Y))) := by
@@ -780,7 +758,7 @@ theorem l2_body_child (env : NsEnv) (henv : EnvOK env) (d : Option Str) (q0 : St
           exact ⟨b ++ r, by simp, rfl⟩
         · cases h
   obtain ⟨inner, hinner, rfl⟩ := hc
-  have := elem_wrap env henv d false base Y tag A gctxs gcur gpend st root sst sroot hM hK hS hA htag hroot hsroot
+  have := elem_wrap env henv d false base Y tag A gctxs gcur gpend st root sst sroot hM hK hS hA htag hYok hroot hsroot
     [] inner (Or.inl rfl)
     (fun gctxs' gcur' gpend' f sf hMf hKf hSf hkf =>
       hcontent _ false inner hinner hok gctxs' gcur' gpend' f st root sf sst sroot hMf hKf hSf hkf)
